@@ -228,6 +228,29 @@ theorem prewrite_over_own_pessimistic_lock_checks_at_infinity (s : Store) (r : P
   simp only [prewriteMutation, hl, hs, hp, bne_self_eq_false, Bool.false_eq_true, if_false]
   cases checkConflictValue _ (getEntry s.kv m.key).writes <;> rfl
 
+/-- … and the lock it writes keeps what the pessimistic lock had accumulated: the larger ttl (heart-beats) and, on the
+    primary, the larger min-commit-ts (pushes by readers' status checks) -/
+theorem prewrite_over_own_pessimistic_lock_keeps_ttl_and_min_commit (s : Store) (r : PrewriteReq) (m : Mutation) (act : PAction)
+    (l : Lock) (hl : (getEntry s.kv m.key).lock = some l) (hs : l.startTS = r.startTS) (hp : l.op = .pessimisticLock)
+    (acts : List Act) (h : prewriteMutation s r m act = .ok acts) :
+    ∃ nl, acts = [Act.putLock m.key nl] ∧ l.ttl ≤ nl.ttl ∧ r.ttl ≤ nl.ttl ∧
+      (r.primary = m.key → l.minCommitTS ≤ nl.minCommitTS ∧ r.minCommitTS ≤ nl.minCommitTS) := by
+  rw [prewrite_over_own_pessimistic_lock_checks_at_infinity s r m act l hl hs hp] at h
+  split at h
+  · cases h
+  · injection h with h
+    refine ⟨_, h.symm, ?_, ?_, ?_⟩
+    · show l.ttl ≤ if r.ttl < l.ttl then l.ttl else r.ttl
+      split <;> omega
+    · show r.ttl ≤ if r.ttl < l.ttl then l.ttl else r.ttl
+      split <;> omega
+    · intro hpk
+      have : (r.primary == m.key) = true := by simp [hpk]
+      show l.minCommitTS ≤ (if r.primary == m.key then (if r.minCommitTS < l.minCommitTS then l.minCommitTS else r.minCommitTS) else 0) ∧
+        r.minCommitTS ≤ (if r.primary == m.key then (if r.minCommitTS < l.minCommitTS then l.minCommitTS else r.minCommitTS) else 0)
+      rw [if_pos this]
+      constructor <;> split <;> omega
+
 /-! ## non-vacuity: the hypotheses are satisfiable by a non-trivial store -/
 example : Desc [⟨.put, 10, 20, [1]⟩, ⟨.rollback, 5, 5, []⟩] ∧
     WellTimed [⟨.put, 10, 20, [1]⟩, ⟨.rollback, 5, 5, []⟩] ∧ NoMix [⟨.put, 10, 20, [1]⟩, ⟨.rollback, 5, 5, []⟩] ∧
